@@ -5,6 +5,17 @@
 EXTENDS Naturals, Sequences, TLC, TLCExt
 S3 == INSTANCE SM3
 S4 == INSTANCE SM4
+G == INSTANCE GCM WITH EK <- S4!CryptWithKeys
+\* RFC 8998 appendix A.1 (SM4-GCM)
+RfcKey == << 1, 35, 69, 103, 137, 171, 205, 239, 254, 220, 186, 152, 118, 84, 50, 16 >>
+RfcIV == << 0, 0, 18, 52, 86, 120, 0, 0, 0, 0, 171, 205 >>
+RfcAAD == << 254, 237, 250, 206, 222, 173, 190, 239, 254, 237, 250, 206, 222, 173, 190, 239, 171, 173, 218, 210 >>
+RfcPT == << 170, 170, 170, 170, 170, 170, 170, 170, 187, 187, 187, 187, 187, 187, 187, 187, 204, 204, 204, 204, 204, 204, 204, 204, 221, 221, 221, 221, 221, 221, 221, 221, 238, 238, 238, 238, 238, 238, 238, 238, 255, 255, 255, 255, 255, 255, 255, 255, 238, 238, 238, 238, 238, 238, 238, 238, 170, 170, 170, 170, 170, 170, 170, 170 >>
+RfcCT == << 23, 243, 153, 240, 140, 103, 213, 238, 25, 208, 220, 153, 105, 196, 187, 125, 95, 212, 111, 211, 117, 100, 137, 6, 145, 87, 178, 130, 187, 32, 7, 53, 216, 39, 16, 202, 92, 34, 240, 204, 250, 124, 191, 147, 212, 150, 172, 21, 165, 104, 52, 203, 207, 152, 195, 151, 180, 2, 74, 38, 145, 35, 59, 141 >>
+RfcTag == << 131, 222, 53, 65, 228, 194, 181, 129, 119, 224, 101, 169, 191, 123, 98, 236 >>
+RfcOK == LET rk == S4!RoundKeys(RfcKey) IN
+           /\ G!Seal(rk, RfcIV, RfcAAD, RfcPT, 16) = RfcCT \o RfcTag
+           /\ G!Open(rk, RfcIV, RfcAAD, RfcCT \o RfcTag, 16) = [ok |-> TRUE, pt |-> RfcPT]
 VARIABLE done
 Init == done = 0
 Next == /\ done = 0
@@ -12,5 +23,7 @@ Next == /\ done = 0
         /\ Assert(S3!VectorsOK, "SM3 standard vectors")
         /\ Assert(S4!SBoxTableOK, "SM4 algebraic S-box = literal table")
         /\ Assert(S4!VectorsOK, "SM4 standard example")
+        /\ Assert(G!MulVectorOK, "GF(2^128) multiplication, GCM spec test case 2")
+        /\ Assert(RfcOK, "SM4-GCM, RFC 8998 A.1")
 Spec == Init /\ [][Next]_done
 =============================================================================
